@@ -744,6 +744,17 @@ fn pubwire_props(k: usize) -> amiquip::AmqpProperties {
 
 const PUBWIRE_LENS: [usize; 6] = [0, 1, 4088, 4089, 9000, 3];
 
+fn pubwire_lens(p: &Value) -> Vec<usize> {
+    if let Some(big) = p["big"].as_u64() {
+        return vec![1, big as usize, 3];
+    }
+    if p["cancel"] == true {
+        PUBWIRE_LENS[..3].to_vec()
+    } else {
+        PUBWIRE_LENS.to_vec()
+    }
+}
+
 impl Scenario for PubWire {
     fn name(&self) -> &'static str {
         "pubwire"
@@ -758,7 +769,10 @@ impl Scenario for PubWire {
         // frames are cut by frame_max whatever the other negotiated numbers are)
         vec![json!({"stall": null}), json!({"stall": 400}), json!({"stall": 5000}), json!({"stall": null, "cancel": true}), json!({"stall": null, "chmax": 0}), json!({"stall": 400, "chmax": 4097}),
             // fine mode: a publisher refills its queue (bound 2) while the I/O thread is taking from it
-            json!({"stall": null, "fine": true})]
+            json!({"stall": null, "fine": true}),
+            // a message of 35 body frames (more than 128 KiB on the wire) on the channel whose
+            // consumer the server cancels, through a queue of one entry
+            json!({"stall": null, "cancel": true, "big": 140000, "qbound": 1})]
     }
     fn bound(&self, tier: &str, p: &Value) -> usize {
         if p["fine"] == true {
@@ -792,11 +806,13 @@ impl Scenario for PubWire {
         if let Some(n) = p["stall"].as_u64() {
             cfg.stall_after = Some(n as usize);
         }
+        let lens = pubwire_lens(p);
+        let qbound = p["qbound"].as_u64().unwrap_or(2) as usize;
         Built {
             broker: Box::new(broker),
             cfg,
             root: Box::new(move |ctx: Ctx| {
-                let mut conn = match open(&ctx, ConnectionOptions::default().heartbeat(0), ConnectionTuning::default().mem_channel_bound(2)) {
+                let mut conn = match open(&ctx, ConnectionOptions::default().heartbeat(0), ConnectionTuning::default().mem_channel_bound(qbound)) {
                     Ok(c) => c,
                     Err(e) => {
                         ctx.log(format!("open -> Err({})", err_name(&e)));
@@ -806,9 +822,9 @@ impl Scenario for PubWire {
                 let mut actors = Vec::new();
                 for chan in 1..=2u16 {
                     let ch = conn.open_channel(Some(chan)).expect("open_channel");
+                    let lens = lens.clone();
                     actors.push(ctx.spawn(&format!("w{}", chan), move |ctx| {
                         let cons = if cancel && chan == 1 { Some(ch.basic_consume("q", ConsumerOptions::default())) } else { None };
-                        let lens: &[usize] = if cancel { &PUBWIRE_LENS[..3] } else { &PUBWIRE_LENS[..] };
                         for (k, len) in lens.iter().enumerate() {
                             let body = pubwire_body(chan, k, *len);
                             let publish = Publish { body: &body, routing_key: format!("rk{}", k), mandatory: k % 2 == 1, immediate: k % 4 >= 2, properties: pubwire_props(k) };
@@ -830,8 +846,7 @@ impl Scenario for PubWire {
     }
     fn check(&self, p: &Value, o: &Outcome, _w: &World) -> Vec<(String, String)> {
         use amq_protocol::frame::AMQPFrame as F;
-        let cancel = p["cancel"] == true;
-        let lens: &[usize] = if cancel { &PUBWIRE_LENS[..3] } else { &PUBWIRE_LENS[..] };
+        let lens = pubwire_lens(p);
         let mut v = Vec::new();
         let (envs, rest) = wire_frames(o);
         if rest != 0 {
